@@ -46,12 +46,6 @@ Lemma pair_geb_trans a b c : pair_geb a b = true -> pair_geb b c = true -> pair_
 Proof. unfold pair_geb. intros. eapply pair_leb_trans; eauto. Qed.
 
 (* ------------------------------------------------------------------ breakpoint lookup *)
-(* p is the rate of the latest breakpoint at or before th; if that breakpoint is listed more than once
-   (never in the bundled files) the code returns the largest of its rates *)
-Definition latest_breakpoint_rate (l : list (Q * Q)) (th p : Q) : Prop :=
-  exists b, In (b, p) l /\ b <= th /\
-            forall b' p', In (b', p') l -> b' <= th -> b' < b \/ (b' == b /\ p' <= p).
-
 Lemma bp_test_spec r th x : Tariff_bp_test r th x = true <-> fst r <= th.
 Proof. unfold Tariff_bp_test. apply Qleb_spec. Qed.
 
@@ -543,12 +537,6 @@ Proof.
 Qed.
 
 (* ------------------------------------------------------------------ costs *)
-Fixpoint cost_terms (prices agg : list Q) (dt : Q) : list Q :=
-  match prices, agg with
-  | p :: ps, a :: r => p * a * dt :: cost_terms ps r dt
-  | _, _ => []
-  end.
-
 Lemma Qdot_terms prices agg dt : Qdot prices agg * dt == Qsum (cost_terms prices agg dt).
 Proof.
   revert agg. induction prices as [|p ps IH]; intros [|a r]; simpl; try ring.
